@@ -8,6 +8,9 @@ RULE = ("Hypothesis programs from vf/genloose.py - the whole spellable language 
         "structs, globals of every type, calls (also void, also with conversions), every statement form, constructors used "
         "as casts, swizzles on scalars, mixed-component vector arithmetic, scalar*vector, matrix*vector, % && || on "
         "vectors, matrix comparison, chained assignment - plus the well-typed generators (scalar core, vectors, calls). "
+        "A share of the loose programs is also scope-loose (the generator keeps names of closed scopes, declarations as "
+        "unbraced bodies): the front end must refuse them when such a name is used. Multi-module programs (vf/genmod.py) "
+        "are linked from the root and compared with the single-module compile. "
         "Each program is compiled at BOTH optimisation settings; when the front end lets it through, every exported "
         "function is invoked on generated type-correct inputs with every global set. Oracle (validity predicate): the "
         "outcome is success, ZeroDivisionError (only if the program contains a division/modulo by a non-constant) or "
@@ -246,7 +249,18 @@ def _uses_nonscalar(src):
                                   "3x3", "4x4", "[", "struct", "for", "while", "do", "( "))
 
 
+def multi_module(ctx, case):
+    """accepted programs made of several separately compiled modules, linked from the root: they must run like the
+    same functions in one module (in particular: no failure in the linker or the VM that the single module lacks)"""
+    from . import c16
+    c16.check(ctx, case)
+    ctx.label("multi-module-program")
+
+
 def run(R):
+    from .. import genmod
+    R.hyp("multi-module", genmod.modules_case(), multi_module, examples=R.pick(25, 600))
+    R.require("multi-module-program")
     R.hyp("loose", genloose.loose_case(), check, examples=R.pick(300, 8000), shrink="ast")
     R.hyp("well-typed", allgen.any_case(loose=False), check, examples=R.pick(60, 2000), shrink="ast")
     R.require("accepted", R.pick(1200, 20000))
